@@ -59,7 +59,7 @@ func init() {
 				"tx_judged": 4000, "tx_judged_pre_byzantium": 800, "tx_judged_byzantium": 1500,
 				"refund_at_cap": 100, "refund_below_cap": 60, "exactly_enough_balance": 100, "exactly_enough_balance_for_gas_only": 10,
 				"failure_after_partial_effects": 300, "failed_with_value": 200, "failed_without_frame": 10, "inner_frame_failed_outer_succeeded": 50,
-				"gas_limit_equals_intrinsic": 100, "gas_limit_equals_block_rest": 50, "price_zero": 100, "price_above_64_bits": 20,
+				"gas_limit_equals_intrinsic": 100, "gas_limit_equals_block_rest": 50, "fits_only_through_returned_gas": 50, "price_zero": 100, "price_above_64_bits": 20,
 				"aliased_roles_exact": 100, "callee_pays_role_conservation": 50, "intermediate_root_compared": 800,
 				"block_imported": 1000, "block_commitments_compared": 500, "block_state_root_compared": 1000,
 				"invalid_apply_nonce_too_high": 100, "invalid_apply_nonce_too_low": 50, "invalid_apply_cannot_prepay_gas": 100,
@@ -72,6 +72,7 @@ func init() {
 		},
 		AnchorFiles: []string{"core/state_transition.go", "core/state_processor.go", "core/gaspool.go", "core/vm/evm.go", "core/types/receipt.go", "core/block_validator.go"},
 		Assumptions: []string{
+			"'intrinsic gas <= gasUsed' is demanded of the gas consumed before the refund, and of the reported gasUsed whenever no refund was earned: with a refund at the cap the reported figure is consumed - floor(consumed/2), which the yellow paper allows to lie below the intrinsic cost (e.g. one SSTORE-clear: consumed 26701, reported 13351, intrinsic 21576); such cases are counted (gas_used_below_intrinsic_after_refund), not judged",
 			"state is observed as the committed content of a copy of the live StateDB (Copy + Commit + RawDump); an account absent from the dump is the all-zero account",
 			"execution gas of the outermost frame is what the EVM reports to the tracer (CaptureEnd); when the EVM refuses before starting a frame, a failed receipt means all gas was consumed and a successful one means none was",
 			"the refund counter is modelled from the trace: 15000 per SSTORE turning non-zero into zero, 24000 per first SELFDESTRUCT of an address, contributions of failed frames discarded",
@@ -142,7 +143,7 @@ func clearTmpl(count, burn uint64) func(b *blk, r *fw.Rand, s *sender) (tmpl, bo
 		for start := 0; start+int(count) <= clearSlots; start++ {
 			ok := true
 			for i := 0; i < int(count); i++ {
-				if _, has := st[common.BigToHash(bigU(uint64(start+i))).Hex()[2:]]; !has {
+				if _, has := st[common.BigToHash(bigU(uint64(start + i))).Hex()[2:]]; !has {
 					ok = false
 				}
 			}
